@@ -152,8 +152,19 @@ impl<Args> RepeatTask<Args> {
     task: fn(&mut Args, usize) -> bool,
     args: Args,
   ) -> Self {
+    Self::with_first_delay(dur, dur, task, args)
+  }
+
+  /// A repeating task whose first run is due after `first`, and every later
+  /// one `dur` after the previous.
+  pub fn with_first_delay(
+    first: Duration,
+    dur: Duration,
+    task: fn(&mut Args, usize) -> bool,
+    args: Args,
+  ) -> Self {
     Self {
-      fur: new_timer(dur),
+      fur: new_timer(first),
       interval: dur,
       task,
       args,
